@@ -1984,6 +1984,165 @@ theorem angular_entry_accuracy_float32_rad_wide {rnd : ℝ → ℝ} (h : StdRoun
     hsl hcl hsn hcn (fun i => rRad_error_float32 h p (lat i) hp 90 (hlat i))
     (fun i => rRad_error_float32 h p (lon i) hp 1440 (hlon i)) N a b ha hb
 
+/-! ### the linear regime for the rounded kernel ("relative error near 2⁻²⁰ away from
+coincident and antipodal pairs") -/
+
+/-- **accuracy of the rounded kernel away from coincident and antipodal pairs**: if the
+returned angle lies in `[m, π - m]` and the great-circle distance in
+`[m + 2(εφ+εl), π - m - 2(εφ+εl)]`, the error is *linear* in the rounding errors:
+`≤ π / (2 sin m) · η + 2 (εφ + εl)` with the `η` of `angular_entry_error_rounded` — no
+square root of `η` as at the end points.  Around `π/2` this is `≈ 1.6·η ≈ 2⁻²⁰` for float32. -/
+theorem angular_entry_mid_error_rounded {rnd : ℝ → ℝ} {u : ℝ} (h : StdRound rnd u)
+    (lat lon φ' l' sl cl sn cn : Nat → ℝ) (δ εφ εl m : ℝ) (hδ : δ ≤ 1 / 16) (hm : 0 < m)
+    (hsl : ∀ i, |sl i - Real.sin (φ' i)| ≤ δ) (hcl : ∀ i, |cl i - Real.cos (φ' i)| ≤ δ)
+    (hsn : ∀ i, |sn i - Real.sin (l' i)| ≤ δ) (hcn : ∀ i, |cn i - Real.cos (l' i)| ≤ δ)
+    (hφ : ∀ i, |φ' i - lat i * Real.pi / 180| ≤ εφ) (hl : ∀ i, |l' i - lon i * Real.pi / 180| ≤ εl)
+    (N a b : Nat) (ha : a < N) (hb : b < N)
+    (h1 : m + 2 * (εφ + εl) ≤ angularDistance realTrig lat lon N a b)
+    (h2 : angularDistance realTrig lat lon N a b ≤ Real.pi - m - 2 * (εφ + εl))
+    (h3 : m ≤ Real.arccos (rCosAngKernel rnd sl cl sn cn N a b))
+    (h4 : Real.arccos (rCosAngKernel rnd sl cl sn cn N a b) ≤ Real.pi - m) :
+    |Real.arccos (rCosAngKernel rnd sl cl sn cn N a b) - angularDistance realTrig lat lon N a b|
+      ≤ Real.pi / (2 * Real.sin m)
+          * (((1 + u) ^ 5 - 1) * (1 + 3 * δ) ^ 2 + (566 / 100 * δ + 11 * δ ^ 2))
+        + 2 * (εφ + εl) := by
+  have key : ∀ i j, m + 2 * (εφ + εl) ≤ angle (nodeVec lat lon i) (nodeVec lat lon j) →
+      angle (nodeVec lat lon i) (nodeVec lat lon j) ≤ Real.pi - m - 2 * (εφ + εl) →
+      m ≤ Real.arccos (clamp (rCosExpr rnd sl cl sn cn i j)) →
+      Real.arccos (clamp (rCosExpr rnd sl cl sn cn i j)) ≤ Real.pi - m →
+      |Real.arccos (clamp (rCosExpr rnd sl cl sn cn i j))
+        - angle (nodeVec lat lon i) (nodeVec lat lon j)|
+      ≤ Real.pi / (2 * Real.sin m)
+          * (((1 + u) ^ 5 - 1) * (1 + 3 * δ) ^ 2 + (566 / 100 * δ + 11 * δ ^ 2))
+        + 2 * (εφ + εl) := by
+    intro i j g1 g2 g3 g4
+    have hc := rCosExpr_total_error h φ' l' sl cl sn cn δ hδ hsl hcl hsn hcn i j
+    set c'' := inner ℝ (unitVec (φ' i) (l' i)) (unitVec (φ' j) (l' j)) with hc''
+    have hmm : -1 ≤ c'' ∧ c'' ≤ 1 := by
+      have := abs_real_inner_le_norm (unitVec (φ' i) (l' i)) (unitVec (φ' j) (l' j))
+      simp only [norm_unitVec, mul_one] at this
+      exact abs_le.1 this
+    have hcl' := clamp_mem (rCosExpr rnd sl cl sn cn i j)
+    have hp := angle_perturb (nodeVec lat lon i) (nodeVec lat lon j)
+      (unitVec (φ' i) (l' i)) (unitVec (φ' j) (l' j))
+    have hk : ∀ k, angle (nodeVec lat lon k) (unitVec (φ' k) (l' k)) ≤ εφ + εl := by
+      intro k
+      refine le_trans (angle_unitVec_le _ _ _ _) ?_
+      linarith [hφ k, hl k, abs_sub_comm (φ' k) (lat k * Real.pi / 180),
+        abs_sub_comm (l' k) (lon k * Real.pi / 180)]
+    have hpert : |angle (unitVec (φ' i) (l' i)) (unitVec (φ' j) (l' j))
+        - angle (nodeVec lat lon i) (nodeVec lat lon j)| ≤ 2 * (εφ + εl) := by
+      linarith [hk i, hk j]
+    have hpa := abs_le.1 hpert
+    rw [angle_unitVec, ← hc''] at hpert hpa
+    have hs : 0 < Real.sin m :=
+      Real.sin_pos_of_pos_of_lt_pi hm (by linarith [Real.arccos_nonneg (clamp (rCosExpr rnd sl cl sn cn i j))])
+    have hmid := arccos_sub_le_mid _ _ m hcl'.1 hcl'.2 hmm.1 hmm.2 hm g3 g4
+      (by linarith [hpa.1]) (by linarith [hpa.2])
+    have hle : Real.pi / (2 * Real.sin m) * |clamp (rCosExpr rnd sl cl sn cn i j) - c''|
+        ≤ Real.pi / (2 * Real.sin m)
+          * (((1 + u) ^ 5 - 1) * (1 + 3 * δ) ^ 2 + (566 / 100 * δ + 11 * δ ^ 2)) :=
+      mul_le_mul_of_nonneg_left (le_trans (clamp_close _ c'' hmm.1 hmm.2) hc)
+        (div_nonneg Real.pi_pos.le (by linarith))
+    have := abs_sub_le (Real.arccos (clamp (rCosExpr rnd sl cl sn cn i j))) (Real.arccos c'')
+      (angle (nodeVec lat lon i) (nodeVec lat lon j))
+    linarith
+  rw [rCosAngKernel_apply rnd sl cl sn cn N a b ha hb] at h3 h4 ⊢
+  rw [angularDistance_eq_angle lat lon N a b ha hb] at h1 h2 ⊢
+  rcases Nat.le_total a b with hab | hab
+  · rw [Nat.max_eq_right hab, Nat.min_eq_left hab] at h3 h4 ⊢
+    rw [angle_comm] at h1 h2 ⊢
+    exact key b a h1 h2 h3 h4
+  · rw [Nat.max_eq_left hab, Nat.min_eq_right hab] at h3 h4 ⊢
+    exact key a b h1 h2 h3 h4
+
+/-- **float32, numpy's tables (`δ ≤ 3·2⁻²⁵`), the conversion as evaluated, `|lat| ≤ 90°`,
+`|lon| ≤ 360°`, angles between 0.25 and π − 0.25** (the oracle's middle range): every such
+entry is within `2⁻¹⁶` rad of the great-circle distance — 64 times better than the `2⁻¹⁰` that
+holds everywhere. -/
+theorem angular_entry_mid_accuracy_float32 {rnd : ℝ → ℝ} (h : StdRound rnd (2⁻¹ ^ 24))
+    (p : ℝ) (hp : |p - Real.pi| ≤ 2⁻¹ ^ 24 * Real.pi)
+    (lat lon sl cl sn cn : Nat → ℝ) (δ : ℝ) (hδ : δ ≤ 3 * 2⁻¹ ^ 25)
+    (hlat : ∀ i, |lat i| ≤ 90) (hlon : ∀ i, |lon i| ≤ 360)
+    (hsl : ∀ i, |sl i - Real.sin (rRad rnd p (lat i))| ≤ δ)
+    (hcl : ∀ i, |cl i - Real.cos (rRad rnd p (lat i))| ≤ δ)
+    (hsn : ∀ i, |sn i - Real.sin (rRad rnd p (lon i))| ≤ δ)
+    (hcn : ∀ i, |cn i - Real.cos (rRad rnd p (lon i))| ≤ δ)
+    (N a b : Nat) (ha : a < N) (hb : b < N)
+    (h1 : 1 / 4 + 2⁻¹ ^ 18 ≤ angularDistance realTrig lat lon N a b)
+    (h2 : angularDistance realTrig lat lon N a b ≤ Real.pi - 1 / 4 - 2⁻¹ ^ 18)
+    (h3 : 1 / 4 ≤ Real.arccos (rCosAngKernel rnd sl cl sn cn N a b))
+    (h4 : Real.arccos (rCosAngKernel rnd sl cl sn cn N a b) ≤ Real.pi - 1 / 4) :
+    |Real.arccos (rCosAngKernel rnd sl cl sn cn N a b) - angularDistance realTrig lat lon N a b|
+      < 2⁻¹ ^ 16 := by
+  have hδ0 : 0 ≤ δ := le_trans (abs_nonneg _) (hsl 0)
+  have hε : (2 : ℝ) * (90 * 2⁻¹ ^ 28 + 360 * 2⁻¹ ^ 28) ≤ 2⁻¹ ^ 18 := by norm_num
+  have hmain := angular_entry_mid_error_rounded h lat lon (fun i => rRad rnd p (lat i))
+    (fun i => rRad rnd p (lon i)) sl cl sn cn δ (90 * 2⁻¹ ^ 28) (360 * 2⁻¹ ^ 28) (1 / 4)
+    (le_trans hδ (by norm_num)) (by norm_num) hsl hcl hsn hcn
+    (fun i => rRad_error_float32 h p (lat i) hp 90 (hlat i))
+    (fun i => rRad_error_float32 h p (lon i) hp 360 (hlon i)) N a b ha hb
+    (by linarith) (by linarith) h3 h4
+  have hη : ((1 + (2⁻¹ : ℝ) ^ 24) ^ 5 - 1) * (1 + 3 * δ) ^ 2 + (566 / 100 * δ + 11 * δ ^ 2)
+      ≤ ((1 + (2⁻¹ : ℝ) ^ 24) ^ 5 - 1) * (1 + 3 * (3 * 2⁻¹ ^ 25)) ^ 2
+        + (566 / 100 * (3 * 2⁻¹ ^ 25) + 11 * (3 * 2⁻¹ ^ 25) ^ 2) := by
+    have : (0 : ℝ) ≤ (1 + 2⁻¹ ^ 24) ^ 5 - 1 := by norm_num
+    gcongr
+  have hη0 : (0 : ℝ) ≤ ((1 + (2⁻¹ : ℝ) ^ 24) ^ 5 - 1) * (1 + 3 * δ) ^ 2
+      + (566 / 100 * δ + 11 * δ ^ 2) := by
+    have : (0 : ℝ) ≤ (1 + 2⁻¹ ^ 24) ^ 5 - 1 := by norm_num
+    positivity
+  -- `π / (2 sin (1/4)) ≤ 13/2`
+  have hs : (246 / 1000 : ℝ) < Real.sin (1 / 4) := by
+    have := Real.sin_gt_sub_cube (x := 1 / 4) (by norm_num)
+    norm_num at this ⊢
+    linarith
+  have hL : Real.pi / (2 * Real.sin (1 / 4)) ≤ 13 / 2 := by
+    rw [div_le_iff₀ (by linarith)]
+    linarith [Real.pi_lt_d2]
+  have hprod : Real.pi / (2 * Real.sin (1 / 4))
+      * (((1 + (2⁻¹ : ℝ) ^ 24) ^ 5 - 1) * (1 + 3 * δ) ^ 2 + (566 / 100 * δ + 11 * δ ^ 2))
+      ≤ 13 / 2 * (((1 + (2⁻¹ : ℝ) ^ 24) ^ 5 - 1) * (1 + 3 * (3 * 2⁻¹ ^ 25)) ^ 2
+        + (566 / 100 * (3 * 2⁻¹ ^ 25) + 11 * (3 * 2⁻¹ ^ 25) ^ 2)) :=
+    mul_le_mul hL hη hη0 (by norm_num)
+  have hnum : (13 / 2 : ℝ) * (((1 + (2⁻¹ : ℝ) ^ 24) ^ 5 - 1) * (1 + 3 * (3 * 2⁻¹ ^ 25)) ^ 2
+        + (566 / 100 * (3 * 2⁻¹ ^ 25) + 11 * (3 * 2⁻¹ ^ 25) ^ 2))
+      + 2 * (90 * 2⁻¹ ^ 28 + 360 * 2⁻¹ ^ 28) < 2⁻¹ ^ 16 := by norm_num
+  linarith
+
+/-- non-vacuity of the linear regime: the north pole and a point of the equator in exact
+arithmetic with exact tables (`u = δ = ε = 0`, `m = 1/4`); their distance is `π/2` -/
+example :
+    |Real.arccos (rCosAngKernel (fun v => v)
+        (fun i => Real.sin ((if i = 0 then 90 else 0 : ℝ) * Real.pi / 180))
+        (fun i => Real.cos ((if i = 0 then 90 else 0 : ℝ) * Real.pi / 180))
+        (fun _ => Real.sin ((0 : ℝ) * Real.pi / 180)) (fun _ => Real.cos ((0 : ℝ) * Real.pi / 180)) 2 0 1)
+      - angularDistance realTrig (fun i => if i = 0 then 90 else 0) (fun _ => 0) 2 0 1|
+      ≤ Real.pi / (2 * Real.sin (1 / 4))
+          * (((1 + 0) ^ 5 - 1) * (1 + 3 * 0) ^ 2 + (566 / 100 * 0 + 11 * 0 ^ 2)) + 2 * (0 + 0) := by
+  have hD : angularDistance realTrig (fun i => if i = 0 then (90 : ℝ) else 0) (fun _ => 0) 2 0 1
+      = Real.pi / 2 := by
+    have hc := cos_angularDistance (fun i => if i = 0 then (90 : ℝ) else 0) (fun _ => 0) 2 0 1
+      (by omega) (by omega)
+    have e : (90 : ℝ) * Real.pi / 180 = Real.pi / 2 := by ring
+    simp [e] at hc
+    have hr := angularDistance_range (fun i => if i = 0 then (90 : ℝ) else 0) (fun _ => 0) 2 0 1
+    rw [← Real.arccos_cos hr.1 hr.2, hc, Real.arccos_zero]
+  have hK : Real.arccos (rCosAngKernel (fun v => v)
+        (fun i => Real.sin ((if i = 0 then 90 else 0 : ℝ) * Real.pi / 180))
+        (fun i => Real.cos ((if i = 0 then 90 else 0 : ℝ) * Real.pi / 180))
+        (fun _ => Real.sin ((0 : ℝ) * Real.pi / 180)) (fun _ => Real.cos ((0 : ℝ) * Real.pi / 180)) 2 0 1)
+      = angularDistance realTrig (fun i => if i = 0 then 90 else 0) (fun _ => 0) 2 0 1 := rfl
+  have hpi := Real.pi_gt_three
+  have hpi' := Real.pi_le_four
+  exact angular_entry_mid_error_rounded (u := 0) ⟨le_refl _, by norm_num, fun v => by simp⟩
+    (fun i => if i = 0 then 90 else 0) (fun _ => 0)
+    (fun i => (if i = 0 then 90 else 0 : ℝ) * Real.pi / 180) (fun _ => (0 : ℝ) * Real.pi / 180)
+    _ _ _ _ 0 0 0 (1 / 4) (by norm_num) (by norm_num) (by simp) (by simp) (by simp) (by simp)
+    (by simp) (by simp) 2 0 1 (by omega) (by omega)
+    (by rw [hD]; linarith) (by rw [hD]; linarith) (by rw [hK, hD]; linarith)
+    (by rw [hK, hD]; linarith)
+
 /-- non-vacuity of the conversion bound: exact arithmetic with the exact constant -/
 example : |rRad (fun v => v) Real.pi 360 - 360 * Real.pi / 180| ≤ 360 * (2⁻¹ : ℝ) ^ 28 :=
   rRad_error_float32 ⟨by norm_num, by norm_num, fun v => by simp⟩ Real.pi 360
